@@ -254,6 +254,7 @@ pub fn run(ctx: &Ctx, rep: &mut Report) {
     }
     super::c04::corner_sampler(ctx, rep, PID, 11, &mut r, 20_000, 400_000);
     super::c14::wrap_probe(ctx, rep, PID, crate::gen::pm(&[11]), &mut r);
+    super::c14::giant_buffer_probe(ctx, rep, PID, crate::gen::pm(&[11]), &mut r);
     rep.require("sentinel");
     rep.require("sentinel-neighbour");
     rep.require("other-resolution-sentinel");
